@@ -215,6 +215,7 @@ class Check:
         except Exception as e:  # extractor cannot read the tree: tie is broken
             self.broken.append(f'table extraction failed: {type(e).__name__}: {e}')
         self.obligations = audit_theorem_names(self.id)
+        self.extra_targets = [t for t in extra_targets if t.startswith('MidoProofs.')]
         targets = [f'MidoProofs.Props.{self.id}', 'MidoProofs.TableTie', 'mido_driver'] + list(extra_targets)
         b = lake_build(targets)
         self.build_log = b.log
@@ -241,7 +242,7 @@ class Check:
         if hits:
             self.broken.append('forbidden constructs in Lean sources: ' + '; '.join(hits[:5]))
         if self.tier == 'thorough' and not self.broken:
-            mods = [f'MidoProofs.Props.{self.id}']
+            mods = [f'MidoProofs.Props.{self.id}'] + [t for t in extra_targets if t.startswith('MidoProofs.')]
             rc, out = _lake(['env', 'leanchecker'] + mods, timeout=3000)
             self.notes.append(f'leanchecker {mods}: rc={rc}')
             if rc != 0:
@@ -359,7 +360,7 @@ class Check:
         cov = {
             'obligations': len(self.obligations),
             'discharged': len(self.discharged),
-            'checker_cmd': f'cd lean && lake build MidoProofs.Props.{self.id} MidoProofs.TableTie && lake env lean MidoProofs/Audit/{self.id}.lean',
+            'checker_cmd': f'cd lean && lake build MidoProofs.Props.{self.id} ' + ' '.join(getattr(self, 'extra_targets', [])) + f' MidoProofs.TableTie && lake env lean MidoProofs/Audit/{self.id}.lean',
             'trusted_base': TRUSTED_BASE,
             'theorems': {n: self.axioms.get(n) for n in self.obligations},
             'broken': self.broken,
